@@ -75,7 +75,12 @@ class Gen:
                 out += self.tree(depth - 1, None, budget=budget)
         out += [len(edges)]
         for (a, b, w) in edges: out += [a, b, w]
-        out += [root]
+        enc = root
+        if root > 0 and r.random() < 0.3:
+            # re-rooting: an earlier node was added with add_root_causaloid too; the LAST root decides where reasoning starts
+            enc = root + 1000 * (1 + r.randrange(0, root))
+            self.rerooted = getattr(self, "rerooted", 0) + 1
+        out += [enc]
         self.last_graph = (n, edges, root)
         return out
 
